@@ -500,8 +500,16 @@ fn uuid_of(n: u64) -> String {
     format!("a1b2c3d4-0000-4000-8000-{:012x}", n)
 }
 
+/// ids as earlier versions accepted them: any spelling that parses as a UUID was used as the
+/// storage key - mostly un-hyphenated, sometimes upper case, braced or as a URN
 fn legacy_uuid_of(n: u64) -> String {
-    format!("a1b2c3d4000040008000{:012x}", 0xeee000u64 + n)
+    let tail = 0xeee000u64 + n;
+    match n % 7 {
+        3 => format!("A1B2C3D4-0000-4000-8000-{:012X}", tail),
+        5 => format!("{{a1b2c3d4-0000-4000-8000-{:012x}}}", tail),
+        6 => format!("urn:uuid:a1b2c3d4-0000-4000-8000-{:012x}", tail),
+        _ => format!("a1b2c3d4000040008000{:012x}", tail),
+    }
 }
 
 const PRICE_MANTS: [u128; 17] = [1, 2, 3, 5, 10, 4, 7, 15, 25, 99, 100, 125, 1000, 12345, 123456789, 1234567890123456789, 99999999999999999999];
@@ -1313,6 +1321,10 @@ impl<'a> Interp<'a> {
                 }
                 _ => v = vec![],
             }
+            // now and then an entry that is no valid address
+            if gate(w[2].rotate_left(15), 80) {
+                v.push(["ab", "APPROVER9", ""][pick(w[9].rotate_left(5), 3)].to_string());
+            }
             ch.approvers = Some(v);
         }
         if mask & 2 != 0 {
@@ -1330,6 +1342,13 @@ impl<'a> Interp<'a> {
                 }
                 3 => v = vec![POOL[pick(w[10], 8)].to_string(), at(&v, 0, "acct0")],
                 _ => v = vec![],
+            }
+            if gate(w[3].rotate_left(15), 80) {
+                if gate(w[3].rotate_left(21), 400) {
+                    v = vec!["ab".to_string(), "EXEC9".to_string()];
+                } else {
+                    v.push(["ab", "EXEC9", ""][pick(w[10].rotate_left(5), 3)].to_string());
+                }
             }
             ch.executors = Some(v);
         }
